@@ -745,6 +745,15 @@ def _sb_call_result(ex, st, args, kwargs):
     yield st, rets[0][2]
 
 
+def _sb_call_recv(ex, st, args, kwargs):
+    """call_recv('Kind.meth'): the receiver of the (single) recorded call of that collaborator method."""
+    (name,) = args
+    calls = [ev for ev in st.trace if ev[0] == "call" and ev[1] == name]
+    if len(calls) != 1:
+        raise Unsupported(f"call_recv: {len(calls)} recorded calls of {name}")
+    yield st, calls[0][2]
+
+
 def _sb_strip_blank(ex, st, args, kwargs):
     """strip_blank(s): a whitespace-only string strips to '' (trusted fact about str.strip)."""
     (s,) = args
@@ -840,7 +849,7 @@ def _sb_py_int_strip(ex, st, args, kwargs):
     yield st, (SV("str", bm.strip_term(bm.sstr(s), "int")) if is_sym(s) else s.strip(" \t\n\x0b\x0c\r"))
 
 
-SPEC_BUILTINS = {"call_result": _sb_call_result, "called_before": _sb_called_before, "comp_filter_count": _sb_comp_filter_count, "comp_filter_element": _sb_comp_filter_element, "comp_filter_condition": _sb_comp_filter_condition, "call_kwarg_names": _sb_call_kwarg_names, "digit_at": _sb_digit_at, "char_in_token": _sb_char_in_token, "lstrip_noop": _sb_lstrip_noop, "char_of_slice": _sb_char_of_slice, "find_in": _sb_find_in, "rfind_in": _sb_rfind_in, "split_first": _sb_split_first, "last_of": _sb_last_of, "strip_noop": _sb_strip_noop, "chars_at": _sb_chars_at, "digit_chars": _sb_digit_chars, "leading_zeros": _sb_leading_zeros, "digits_only": _sb_digits_only, "head_of": _sb_head_of, "py_int": _sb_py_int, "py_int_ok": _sb_py_int_ok, "nat_shift": _sb_nat_shift, "char_at": _sb_char_at, "int_of_digits": _sb_int_of_digits, "substr_at": _sb_substr_at, "strip_core": _sb_strip_core, "cut_at": _sb_cut_at, "excludes": _sb_excludes, "int_padded": _sb_int_padded, "py_int_strip": _sb_py_int_strip, "py_repr": _sb_py_repr, "loops_exhausted": _sb_loops_exhausted, "call_kwarg": _sb_call_kwarg, "some": _sb_some, "index_at": _sb_index_at, "strip_blank": _sb_strip_blank, "pos_of": _sb_pos_of, "call_arg": _sb_call_arg, "unmodified": _sb_unmodified, "uf": _sb_uf, "called": _sb_called, "py_isalpha": _sb_py_isalpha, "py_isdigit": _sb_py_isdigit, "int_of_signed": _sb_int_of_signed, "strip_padded": _sb_strip_padded, "strip_unique": _sb_strip_unique, "py_strip": _sb_py_strip, "pad": _sb_pad, "matches": _sb_matches, "nat": _sb_nat, "key_at": _sb_key_at, "val_at": _sb_val_at,
+SPEC_BUILTINS = {"call_recv": _sb_call_recv, "call_result": _sb_call_result, "called_before": _sb_called_before, "comp_filter_count": _sb_comp_filter_count, "comp_filter_element": _sb_comp_filter_element, "comp_filter_condition": _sb_comp_filter_condition, "call_kwarg_names": _sb_call_kwarg_names, "digit_at": _sb_digit_at, "char_in_token": _sb_char_in_token, "lstrip_noop": _sb_lstrip_noop, "char_of_slice": _sb_char_of_slice, "find_in": _sb_find_in, "rfind_in": _sb_rfind_in, "split_first": _sb_split_first, "last_of": _sb_last_of, "strip_noop": _sb_strip_noop, "chars_at": _sb_chars_at, "digit_chars": _sb_digit_chars, "leading_zeros": _sb_leading_zeros, "digits_only": _sb_digits_only, "head_of": _sb_head_of, "py_int": _sb_py_int, "py_int_ok": _sb_py_int_ok, "nat_shift": _sb_nat_shift, "char_at": _sb_char_at, "int_of_digits": _sb_int_of_digits, "substr_at": _sb_substr_at, "strip_core": _sb_strip_core, "cut_at": _sb_cut_at, "excludes": _sb_excludes, "int_padded": _sb_int_padded, "py_int_strip": _sb_py_int_strip, "py_repr": _sb_py_repr, "loops_exhausted": _sb_loops_exhausted, "call_kwarg": _sb_call_kwarg, "some": _sb_some, "index_at": _sb_index_at, "strip_blank": _sb_strip_blank, "pos_of": _sb_pos_of, "call_arg": _sb_call_arg, "unmodified": _sb_unmodified, "uf": _sb_uf, "called": _sb_called, "py_isalpha": _sb_py_isalpha, "py_isdigit": _sb_py_isdigit, "int_of_signed": _sb_int_of_signed, "strip_padded": _sb_strip_padded, "strip_unique": _sb_strip_unique, "py_strip": _sb_py_strip, "pad": _sb_pad, "matches": _sb_matches, "nat": _sb_nat, "key_at": _sb_key_at, "val_at": _sb_val_at,
                  "same_dict": _sb_same_dict}
 
 
@@ -1163,10 +1172,17 @@ def _havoc(ex, st, names, attrs, spec: Loop):
         if sort is None:
             if nm not in env:
                 continue  # assigned before use inside the loop
+            if cur is None:
+                # a local that is None at the loop head and assigned in the body: after an arbitrary number of
+                # iterations it holds None or some value nothing is known about
+                env[nm] = fresh(parse_sort("u:Any|None"), nm)
+                continue
             raise Unsupported(f"loop: cannot infer sort of modified variable {nm}; declare it in Loop.vars")
         env[nm] = ex.db.make_value(ex, st, sort, nm) if isinstance(sort, str) else fresh(sort, nm)
     for base, attr in sorted(attrs):
         ref = env.get(base)
+        if base not in env:
+            continue  # the object is created inside the loop body (a local assigned before its attribute is)
         o = st.deref(ref)
         if not isinstance(o, Obj):
             raise Unsupported(f"loop modifies attribute of non-object {base}")
